@@ -31,6 +31,7 @@ def gen_env_group(rng, gi):
     elif r < .33: fs.append(["binary"])
     elif r < .38: fs.append(["where", rng.choice([1, 3])])
     if rng.random() < .12: fs.append(["logged", rng.randrange(1, 9)])
+    if rng.random() < .12: fs.append(["batch", rng.choice([2, 3])])
     return g
 
 LRN_KINDS = ["stateful-ap", "stateful-pmf", "stateful-kw", "stateful-a", "stateful-info", "random", "epsilon", "ucb", "corral", "fixed"]
